@@ -21,7 +21,10 @@ def _setup(ctx, params):
     ST.ls_mode = params.get("ls_mode", "lean")
     ST.ls_tmax = params.get("ls_tmax", 1)
     ST.assume_new_trial = True
-    orch.use_real_line_search(W, False)
+    orch.use_real_line_search(W, params.get("ls_mode") == "real")
+    if params.get("ls_mode") == "real":
+        from .c11 import install_cut
+        install_cut(W, ctx)
     n = params.get("n", 1)
     prob = Problem(ctx, W, n, params.get("pattern", ("ff",) * n))
     gt = ctx.real("gtol")
@@ -326,17 +329,44 @@ class RecLogger:
 
 
 def _module_state(W):
-    """Python-level mutable state of the package's modules (class attributes, mutable default arguments)."""
-    main = W.load("lbfgsb.main")
-    ls = W.load("lbfgsb.linesearch")
+    """Python-level mutable state of the package's modules: every module-level container, class attribute of the
+    package's own classes, and mutable default argument of its functions (real functions, not the stubs)."""
+    import types as _types
+    from collections import deque as _deque
     out = {}
-    IS = main.InternalState
-    for k in ("nit", "status", "task_str", "is_success", "warnflag"):
-        out["InternalState." + k] = getattr(IS, k)
-    real_ls = main._symx_real["line_search"] if hasattr(main, "_symx_real") else ls.line_search
-    for i, dflt in enumerate(real_ls.__defaults__ or ()):
-        if isinstance(dflt, SArr):
-            out["line_search.default%d" % i] = [repr(d) for d in dflt.data]
+
+    def sig(v):
+        if isinstance(v, SArr):
+            return ("arr", v.shape, tuple(repr(d) for d in v.data[:8]))
+        if isinstance(v, dict):
+            return ("dict", tuple(sorted((repr(k), type(x).__name__) for k, x in v.items())))
+        if isinstance(v, (list, set, _deque, tuple)):
+            return (type(v).__name__, len(v), tuple(type(x).__name__ for x in list(v)[:8]))
+        return repr(v)
+    for mname, mod in sorted(W.modules.items()):
+        if not mname.startswith("lbfgsb"):
+            continue
+        for name, val in sorted(vars(mod).items()):
+            if name.startswith("__") or name.startswith("_symx"):
+                continue
+            if isinstance(val, (_types.ModuleType,)):
+                continue
+            if isinstance(val, (dict, list, set, _deque, SArr)):
+                out["%s.%s" % (mname, name)] = sig(val)
+            elif isinstance(val, type) and getattr(val, "__module__", "") == mname:
+                for k, a in sorted(vars(val).items()):
+                    if not k.startswith("__") and not callable(a) and not isinstance(a, (property, staticmethod, classmethod)):
+                        out["%s.%s.%s" % (mname, name, k)] = sig(a)
+            elif isinstance(val, _types.FunctionType) and getattr(val, "__module__", None) in (None, mname) or (isinstance(val, _types.FunctionType) and val.__globals__ is vars(mod)):
+                for i, d in enumerate(val.__defaults__ or ()):
+                    if isinstance(d, (dict, list, set, SArr)):
+                        out["%s.%s.default%d" % (mname, name, i)] = sig(d)
+    main = W.modules.get("lbfgsb.main")
+    if main is not None and hasattr(main, "_symx_real"):
+        for fname, fn in main._symx_real.items():
+            for i, d in enumerate(getattr(fn, "__defaults__", None) or ()):
+                if isinstance(d, (dict, list, set, SArr)):
+                    out["real.%s.default%d" % (fname, i)] = sig(d)
     return out
 
 
@@ -657,6 +687,11 @@ def _c13_rewrite(ctx, params):
             yy = sum((hi.yk[j, i] * hi.yk[j, i] for i in range(n)), SReal.of(0))
             bad.append(_b(sy <= SReal.of(EPS) * yy))
         ctx.check("C13.retained_pairs_satisfy_curvature", zor(bad), info=info)
+        pos = []
+        for j in range(m):
+            sy = sum((hi.sk[j, i] * hi.yk[j, i] for i in range(n)), SReal.of(0))
+            pos.append(_b(sy <= 0))
+        ctx.check("C18.pairs_have_positive_curvature", zor(pos), info=info)
     # 3. next direction computation sees the state of a restart on the new objective from the rewritten checkpoint
     k = getattr(R, "switch_dir_index", None)
     dirs = ST.dir_calls[d0:]
@@ -743,3 +778,57 @@ def unit_scaler(ctx, params):
     else:
         ctx.check("C17.unit_scaler_is_inverse_projected_gradient_norm", val.z() * best != 1, info=dict(n=n))
     return dict(cls="ok")
+
+
+
+def c14_kernels(ctx, params):
+    """Real kernels of two different problems interleaved in one module namespace: P, then Q, then P again with the
+    'previous iteration' arguments a real run would pass; same inputs must give the same outputs."""
+    from . import c08
+    W = common.world("c14k")
+    np = W.np
+    cauchy = W.load("lbfgsb.cauchy")
+    sub = W.load("lbfgsb.subspacemin")
+    bm = W.load("lbfgsb.bfgsmats")
+    W.load("lbfgsb.linesearch")
+    n = params.get("n", 2)
+    before = _module_state(W)
+    x, g, l, u = common.sym_point_and_box(ctx, np, n, params.get("pattern", ("ff",) * n))
+    ctx.assume(c08.proj_grad_nonzero(n, x.data, g.data, l.data, u.data))
+    mats = bm.LBFGSB_MATRICES(n)
+    info = dict(params)
+
+    def pipeline(it, free_old):
+        xc, c = cauchy.get_cauchy_point(x, g, l, u, mats, it, -1, None)
+        fv, Z, A = sub.get_freev(xc, l, u, it, free_old, -1, None)
+        xb = sub.subspace_minimization(x, xc, fv, Z, A, c, g, l, u, mats)
+        return xc, fv, Z, A, xb
+    try:
+        xc1, fv1, Z1, A1, xb1 = pipeline(1, np.array([], dtype=int))
+        # another problem of a different size in between (all variables free)
+        nq = n + 1
+        xq = np.array([SReal.of(0)] * nq)
+        gq = np.array([SReal.of(1)] * nq)
+        lq = np.array([SReal.of(-4)] * nq)
+        uq = np.array([SReal.of(4)] * nq)
+        mq = bm.LBFGSB_MATRICES(nq)
+        xcq, cq = cauchy.get_cauchy_point(xq, gq, lq, uq, mq, 1, -1, None)
+        fq, Zq, Aq = sub.get_freev(xcq, lq, uq, 1, np.array([], dtype=int), -1, None)
+        sub.subspace_minimization(xq, xcq, fq, Zq, Aq, cq, gq, lq, uq, mq)
+        # P again, as its next iteration would call the kernels (previous free set = fv1)
+        xc2, fv2, Z2, A2, xb2 = pipeline(2, fv1)
+    except (PathAbort, Unsupported):
+        raise
+    except Exception as e:
+        ctx.check("C14.interleaved_kernels_do_not_raise", True, info=dict(info, exc=type(e).__name__, msg=str(e)[:200]))
+        return dict(cls="exception")
+    bad = []
+    if Z1.shape != Z2.shape or A1.shape != A2.shape or list(fv1.data) != list(fv2.data):
+        ctx.check("C14.interleaved_kernels_same_outputs", True, info=dict(info, why="shapes/free sets differ: Z %s vs %s" % (Z1.shape, Z2.shape)))
+    else:
+        terms = [diff_lists(list(xc1.data), list(xc2.data)), diff_lists(list(xb1.data), list(xb2.data)),
+                 diff_lists(list(Z1.data), list(Z2.data)), diff_lists(list(A1.data), list(A2.data))]
+        ctx.check("C14.interleaved_kernels_same_outputs", zor(terms), info=info)
+    after = _module_state(W)
+    ctx.check("C14.no_module_level_state_changed", before != after, info=dict(info, changed=[k for k in set(before) | set(after) if before.get(k) != after.get(k)][:6]))
+    return dict(cls="free=%d" % len(fv1.data))
